@@ -8,7 +8,10 @@ C01_discovery_by_insertion
 C01_setstage_pre_decidable C01_setstage_set_in_complete C01_setstage_set_in_parent C01_setstage_memory_child_shares_cpuset
 C01_setstage_siblings_disjoint C01_setstage_nodeset_decomposition C01_setstage_allowed_sets C01_setstage_within_allowed C01_setstage_no_object_lost
 C01_setstage_nested_memory_shares_cpuset C01_setstage_nested_memory_within_allowed
-C01_links_of_render C01_renderCheck_sound""".split()]
+C01_links_of_render C01_renderCheck_sound
+C01_remove_empty_rule C01_remove_empty_fixpoint C01_remove_empty_idempotent C01_remove_empty_root_removed C01_remove_empty_preserves
+C01_remove_empty_preserves_set_clauses C01_remove_empty_preserves_nodeset_decomposition C01_remove_empty_typed C01_remove_empty_keeps_nonempty C01_pipeline_typing C01_pipeline_sets_through_merging C01_total_memory_stage C01_total_memory_clause C01_group_depth_stage
+C01_pipeline_compose""".split()]
 TRUSTED = ["C01_discovery_by_insertion is about the model of hwloc___insert_object_by_cpuset (lean/Hw/Topo/Insert.lean); that model is tied to the "
            "code by the C02 history engine, which predicts the exact tree after every hwloc_topology_insert_group_object call (new object = "
            "Group; the type-order table used for other new types is generated from the source by tools/gen_restrict.py but exercised only "
@@ -18,6 +21,15 @@ TRUSTED = ["C01_discovery_by_insertion is about the model of hwloc___insert_obje
            "set-stage engine: the library built with -DHWLOC_VERIF dumps the whole tree before and after the stage (hook in hwloc_discover, "
            "environment variable HWLOC_VERIF_STAGE_DUMP) and the model must reproduce the AFTER dump from the BEFORE dump exactly; their "
            "precondition PreSets is evaluated on every BEFORE dump (violations are counted in the evidence: setstage.pre_violated); without the hook in the source the engine observes nothing",
+           "the C01_remove_empty_* / C01_total_memory_* / C01_group_depth_stage / C01_pipeline_compose theorems are about the models of remove_empty, "
+           "propagate_total_memory and hwloc_set_group_depth (lean/Hw/Topo/Stage*.lean) and the existing models of hwloc_filter_levels_keep_structure "
+           "and of the connect functions (Restrict.lean, Render.lean); they are tied to the code by the second part of the stage-dump hook "
+           "(hooks/stage-dump-2.patch, add-only under HWLOC_VERIF: the tree with local / total memory and Group attributes after hwloc_filter_bridges, "
+           "after remove_empty, after hwloc__reconnect(KEEPSTRUCTURE), after propagate_total_memory and after hwloc_set_group_depth): on every load of the "
+           "set-stage engine each model run on the previous dump must reproduce the next dump exactly; while the patch is not in the source the blocks "
+           "are absent and the comparisons are skipped (evidence counter setstage.stage_absent).  In C01_pipeline_compose the discovery phases between "
+           "the set stage and remove_empty (reconnect, PCI / I/O / Misc / annotate back ends, hwloc_filter_bridges) are NOT modelled: they enter as an "
+           "arbitrary decoration (I/O and Misc subtrees, Group attributes) under the typing hypothesis typedT, which the engine evaluates on every rm_before dump",
            "harness/dump.h as a faithful reading of the topology through the public API; lean/Driver/Topo.lean as its parser",
            "PARTIAL: that hwloc's loaders (synthetic, XML, Linux, x86, core pipeline) establish WF is NOT proved; it is checked by the proved oracle on every loaded topology of the run"]
 ASSUMPTIONS = ["sources: generated synthetic strings, bundled XML files, bundled Linux and x86 snapshots, and sources derived from these with random custom "
@@ -27,7 +39,9 @@ ASSUMPTIONS = ["sources: generated synthetic strings, bundled XML files, bundled
                "machine that runs the check: a replay is exact on the same machine only); the live machine is not loaded natively"]
 MODELLED = ("modelled: the well-formedness predicate (every clause of the property) and its consequences; "
             "modelled and proved: hwloc___insert_object_by_cpuset and the set pipeline of hwloc_discover (root fixup, propagate_nodeset, fixup_sets, "
-            "remove_unused_sets); not modelled: the back ends, hwloc__attach_memory_object, level connection, filtering, remove_empty, total memory; "
+            "remove_unused_sets), remove_empty, propagate_total_memory, hwloc_set_group_depth, and their composition with level merging and level connection "
+            "(link / level clauses of the rendered dump); not modelled: the back ends, hwloc__attach_memory_object, the I/O / Misc discovery phases and "
+            "hwloc_filter_bridges between the set stage and remove_empty, hwloc_propagate_symmetric_subtree in the pipeline; "
             "not modelled: the loaders themselves (exercised: each loaded topology is dumped and judged; hwloc_topology_check() must not abort)")
 
 def run_engines(tier, seed):
@@ -85,7 +99,8 @@ def replay(path):
                     v = vv.get(cid)
                     why = eng_setstage.judge(v) if v else None
                     print("%s [set-stage, HWLOC_LIBXML=%d] -> %s" % (l, lx, "no stage dump (load failed before the stage)" if not v or not v["pre"]
-                                                                     else why or (v["pre"] + " / " + v["post"])))
+                                                                     else why or (v["pre"] + " / " + v["post"] + "".join(
+                                                                         " / " + v.get("s2", {})[k] for k in eng_setstage.STAGES2 if k in v.get("s2", {})))))
                     if rr.returncode != 0 or why:
                         bad += 1
         finally:
